@@ -52,14 +52,13 @@ def hash0_line(rng, seed=1):
 # ---------------------------------------------------------------- reference semantics (independent)
 
 def py_records(data):
-    """the lines FilePiece::ReadLine yields: split at LF; terminated lines lose one trailing CR;
-    a non-empty unterminated tail is a line"""
+    """the lines dedupe handles: split at LF, every other byte (a trailing CR included) belongs to the line --
+    the property says the kept lines are written byte-for-byte; a non-empty unterminated tail is a line"""
     parts = data.split(b"\n")
     tail = parts.pop()
-    out = [p[:-1] if p.endswith(b"\r") else p for p in parts]
     if tail:
-        out.append(tail)
-    return out
+        parts.append(tail)
+    return parts
 
 
 def py_first_occ(lines, keyf=lambda l: l):
